@@ -138,10 +138,91 @@ def shard(shard, nshards, tier, seed):
             check_pair(s1, s2, classes, acc)
             if idx % 200 == 0:
                 gen.purge_globals()
+    from . import c12
+
+    for idx, (warm, seq) in enumerate(c12.relation_scenarios("quick")):
+        if idx % nshards == shard:
+            run_relation(warm, seq, acc)
     if shard == 0:
         laws(acc, tier)
         deferred(acc)
     return acc
+
+
+def run_relation(warm, seq, acc):
+    """The subtype test follows the subclass relation when that relation changes (virtual-subclass registration, a class
+    starting to satisfy a runtime protocol): same worlds / events / warm-ups as C12's histories, judged with subclasscheck
+    and with a function built AFTER the event."""
+    from . import c12
+    from ovld.types import Union as OvUnion
+
+    classes, events = c12._fresh_world()
+    found = []
+    names = c12.REL_NAMES
+
+    def sc(a, b):
+        try:
+            return subclasscheck(a, b)
+        except Exception as e:  # noqa
+            return "raises:" + type(e).__name__
+
+    def compare_all(stage):
+        for x in names:
+            for y in names:
+                X, Y = classes[x], classes[y]
+                exp = issubclass(X, Y)
+                for w, (a, b, e) in {"plain": (X, Y, exp), "list": (list[X], list[Y], exp), "type": (type[X], type[Y], exp),
+                                     "union-target": (X, OvUnion[Y, int], exp)}.items():
+                    got = sc(a, b)
+                    if acc is not None:
+                        acc.count("evaluations")
+                        acc.count("law_checks")
+                    if got != e:
+                        found.append(("relation-change:subclasscheck-vs-issubclass", {"a": x, "b": y, "wrap": w, "stage": stage, "expected": e, "got": got}))
+        # a function built now: f(x: Y) + object fallback, called with instances of the concrete classes
+        for y in names:
+            ov = Ovld()
+            log = []
+
+            def m0(x: classes[y]):
+                log.append(0)
+
+            def m1(x: object):
+                log.append(1)
+
+            ov.register(m0)
+            ov.register(m1, priority=-1)
+            for x in ("K", "K2", "Z"):
+                del log[:]
+                try:
+                    ov(classes[x]())
+                except Exception as e:  # noqa
+                    log.append("raises:" + type(e).__name__)
+                want = [0] if issubclass(classes[x], classes[y]) else [1]
+                if acc is not None:
+                    acc.count("evaluations")
+                if log != want:
+                    found.append(("relation-change:new-function-dispatch", {"a": x, "b": y, "wrap": "dispatch", "stage": stage, "expected": want, "got": list(log)}))
+
+    if warm == "all":
+        compare_all(0)
+    elif warm is not None:
+        x, y, w = warm
+        sc(classes[x], classes[y])
+    for k, e in enumerate(seq):
+        events[e]()
+        compare_all(k + 1)
+    if acc is not None:
+        acc.count("relation_scenarios")
+        seen = set()
+        for disc, detail in found:
+            key = (disc, detail["a"], detail["b"], detail["wrap"])
+            if key in seen:
+                continue
+            seen.add(key)
+            acc.violation({"relation": True, "warm": list(warm) if isinstance(warm, tuple) else warm, "events": list(seq),
+                           "a": detail["a"], "b": detail["b"], "wrap": detail["wrap"]}, disc, detail)
+    return found
 
 
 def pair_pool(tier):
@@ -345,6 +426,10 @@ def replay(case):
     acc = core.Acc(PROP)
     classes = dict(U.CLASSES)
     classes.update(U.WORLD_CLASSES)
+    if case.get("relation"):
+        w = case["warm"]
+        found = run_relation(tuple(w) if isinstance(w, list) else w, tuple(case["events"]), None)
+        return [f for f in found if (f[1]["a"], f[1]["b"], f[1]["wrap"]) == (case["a"], case["b"], case["wrap"])]
     if "pair" in case:
         return [(d, x) for c, d, x in check_pair(case["pair"][0], case["pair"][1], classes, None) if c == case["class"]]
     if "type" in case and "class" in case:
@@ -380,6 +465,8 @@ def main(tier):
              "(quick: classes, Exactly, StrictSubclass, HasMethod and a selection of unions / intersections) as two methods of one "
              "function + fallback (thorough: every ordered pair of the depth-2 selection): the method that runs must be one whose type's denotation contains C (ambiguity only when both do); Deferred[...] on a scratch module "
              "before and after import; laws: reflexivity, == issubclass on all class pairs, transitivity on all triples and "
-             "argument-wise covariance on the class + parametrised generic fragment (same origin, and a subclass origin on the left: list / Iterable, list / Sequence, dict / Mapping); non-trivial = (T, C) with C in [[T]]",
+             "argument-wise covariance on the class + parametrised generic fragment; histories in which the subclass relation itself changes "
+             "(C12's worlds and events): after every event subclasscheck - plain, inside list / type, against a Union - and a function built "
+             "after the event must follow issubclass; argument-wise covariance (same origin, and a subclass origin on the left: list / Iterable, list / Sequence, dict / Mapping); non-trivial = (T, C) with C in [[T]]",
         assumptions=["denotation rules of vt/c13.py are the documented meaning (docs/types.md)"],
     )
